@@ -30,7 +30,8 @@ pub struct Dom {
 
 struct Arena {
     nodes: RefCell<Vec<Node>>,
-    names: RefCell<Vec<Option<&'static QualName>>>,
+    /// element names, boxed so that their addresses stay stable while the sink lives
+    names: RefCell<Vec<Option<Box<QualName>>>>,
 }
 impl Arena {
     fn new_node(&self, d: Data) -> usize {
@@ -85,8 +86,11 @@ impl TreeSink for Sink {
         0
     }
     fn elem_name<'a>(&'a self, t: &'a usize) -> ExpandedName<'a> {
-        let q: &'static QualName = self.a.names.borrow()[*t].expect("not an element");
-        q.expanded()
+        let names = self.a.names.borrow();
+        let q: *const QualName = &**names[*t].as_ref().expect("not an element");
+        // SAFETY: the QualName lives in a Box owned by the arena, is never dropped or replaced
+        // before the sink itself is dropped, and a Box's contents do not move when the Vec grows.
+        unsafe { (*q).expanded() }
     }
     fn create_element(&self, name: QualName, attrs: Vec<Attribute>, _f: ElementFlags) -> usize {
         let html = &*name.ns == "http://www.w3.org/1999/xhtml";
@@ -95,14 +99,11 @@ impl TreeSink for Sink {
             html,
             attrs.iter().map(|a| (a.name.local.to_string(), a.value.to_string())).collect(),
         ));
-        // html5ever wants a borrowed name that outlives the call; leak one per distinct element
-        // (documents are tiny, workers are short lived).
-        let leaked: &'static QualName = Box::leak(Box::new(name));
         let mut n = self.a.names.borrow_mut();
         while n.len() <= id {
             n.push(None);
         }
-        n[id] = Some(leaked);
+        n[id] = Some(Box::new(name));
         id
     }
     fn create_comment(&self, _t: StrTendril) -> usize {
